@@ -1,5 +1,6 @@
 import Proofs.NumLemmas
 import Proofs.SprintLemmas
+import Proofs.F64Mono
 /-!
 # C17 — numeric filters compute exact arithmetic and report impossible operations
 
@@ -47,6 +48,61 @@ theorem times_spec (a b : Rat) (h : Representable (a * b)) (hz : a * b = 0 → 0
 
 example : Representable ((3 : Rat) / 2 * (-4)) ∧ ((3 : Rat) / 2 * (-4) = 0 → (0 : Rat) ≤ 3 / 2 ∧ (0 : Rat) ≤ -4) := by
   decide +kernel
+
+/-- `times` in general: the IEEE-754 product, i.e. the exact product correctly rounded (`roundF64`). The only
+rounded product the model does not give is a zero Go signs negative (operands of opposite sign whose product is zero
+or underflows to zero), excluded by `hz`. `times_spec` is the case `r = a * b`. -/
+theorem times_rounds (a b r : Rat) (h : roundF64 (a * b) = some r) (hz : r = 0 → (a < 0 ↔ b < 0)) :
+    Num.times [fv a, fv b] = ret (.flt .f64 r) := by
+  have : f64Round (a * b) (decide (a < 0) != decide (b < 0)) = .ok r := by
+    apply f64Round_of_round h
+    intro h0
+    have := hz h0
+    by_cases ha : a < 0 <;> simp_all
+  simp [Num.times, Num.fltResult, this, ret]
+
+example : roundF64 (mkRat 3602879701896397 36028797018963968 * 3) = some (mkRat 2702159776422298 9007199254740992)
+    ∧ ((mkRat 2702159776422298 9007199254740992 : Rat) = 0 → ((mkRat 3602879701896397 36028797018963968 : Rat) < 0 ↔ (3 : Rat) < 0)) := by
+  decide +kernel   -- 0.1 * 3 = 0.30000000000000004
+
+/-! ### What `roundF64` is: correctly rounded, and where it overflows
+
+`roundF64 q = some r` says: `r` is a float64 (`rounds_to_float64`), no float64 lies strictly between `q` and `r`
+(`rounding_faithful`), and a float64 is returned unchanged (the `_spec` theorems: `Representable q` IS
+`roundF64 q = some q`). It is `none` exactly on overflow: never for `|q| ≤ math.MaxFloat64` (`float_op_in_range`),
+always for `|q| ≥ 2^1024 - 2^970` (`float_op_overflow`: there the real code computes ±Inf and prints `+Inf` /
+`-Inf`; the model answers `unmodelled`, which the comparison skips — `arith_overflow_unmodelled`). -/
+
+theorem rounds_to_float64 (q r : Rat) (h : roundF64 q = some r) : Representable r := roundF64_idem q r h
+
+theorem rounding_faithful (q r r' : Rat) (h : roundF64 q = some r) (hr' : Representable r') :
+    (r' ≤ q → r' ≤ r) ∧ (q ≤ r' → r ≤ r') :=
+  ⟨roundF64_ge_of_representable q r r' h hr', roundF64_le_of_representable q r r' h hr'⟩
+
+theorem float_op_in_range (q : Rat) (h1 : -maxF64 ≤ q) (h2 : q ≤ maxF64) :
+    ∃ r, roundF64 q = some r ∧ Representable r ∧ -maxF64 ≤ r ∧ r ≤ maxF64 := by
+  obtain ⟨r, e1, e2, e3⟩ := roundF64_no_overflow q h1 h2
+  exact ⟨r, e1, roundF64_idem q r e1, e2, e3⟩
+
+theorem float_op_overflow (q : Rat) (h : overflowF64 ≤ q ∨ q ≤ -overflowF64) : roundF64 q = none :=
+  roundF64_overflow q h
+
+/-- on overflow of the exact result all four float operations leave the model (the real code yields ±Inf, printed
+`+Inf` / `-Inf`: `{{ 1e300 | times: 1e300 }}` renders `+Inf`) -/
+theorem arith_overflow_unmodelled (a b : Rat) :
+    (roundF64 (a + b) = none → Num.plus [fv a, fv b] = .unmodelled "float64: overflow to ±Inf") ∧
+    (roundF64 (a - b) = none → Num.minus [fv a, fv b] = .unmodelled "float64: overflow to ±Inf") ∧
+    (roundF64 (a * b) = none → Num.times [fv a, fv b] = .unmodelled "float64: overflow to ±Inf") ∧
+    (∀ k, b ≠ 0 → roundF64 (a / b) = none →
+      Num.dividedBy [fv a, .val (.flt k b)] = .unmodelled "float64: overflow to ±Inf") := by
+  refine ⟨fun h => ?_, fun h => ?_, fun h => ?_, fun k hb h => ?_⟩
+  · simp [Num.plus, Num.fltResult, f64Round, h, Res.bind]
+  · simp [Num.minus, Num.fltResult, f64Round, h, Res.bind]
+  · simp [Num.times, Num.fltResult, f64Round, h, Res.bind]
+  · simp [Num.dividedBy, Num.divFloat, hb, Num.fltResult, f64Round, h, Res.bind]
+
+example : maxF64 = 179769313486231570814527423731704356798070567525844996598917476803157260780028538760589558632766878171540458953514382464234321326889464182768467546703537516986049910576551282076245490090389328944075868508455133942304583236903222948165808559332123348274797826204144723168738177180919299881250404026184124858368
+    ∧ overflowF64 ≤ (10 ^ 300 : Nat) * (10 ^ 300 : Nat) := by decide +kernel
 
 /-! ## divided_by: integer division for an integer divisor, real division for a float divisor -/
 
